@@ -57,7 +57,70 @@ def c02(run):
         a, aab = impl_c.get(s[0], ([], None))
         b, bab = impl_u.get(s[0], ([], None))
         lockstep(run, s, a, aab, b, bab)
+    write_faults(run, scripts, impl_c, impl_u, binary)
     return divs
+
+def write_faults(run, scripts, impl_c, impl_u, bin_u):
+    """transparency when a transfer fails.  Fault positions are transfer indices, which differ between the
+    builds - but both builds issue the same writes in the same order, so 'the j-th write of operation i fails'
+    means the same thing in both: its transfer index is looked up in each build's own fault-free trace and each
+    build gets its own copy of the script.  Everything observable must then still agree."""
+    import random
+    rnd = random.Random(run.seed * 7919 + 13)
+    bin_c, err = C.build_harness('cache')
+    if bin_c is None:
+        return
+    cand = [s for s in scripts if not s[0].split()[2:3] == ['exh'] or rnd.random() < 0.05]
+    rnd.shuffle(cand)
+    want = q(run, 500, 6000)
+    sc, su, origin = [], [], {}
+    for s in cand:
+        if len(sc) >= want:
+            break
+        a, aab = impl_c.get(s[0], ([], None))
+        b, bab = impl_u.get(s[0], ([], None))
+        a = [l for l in a if not l.startswith('!')]
+        b = [l for l in b if not l.startswith('!')]
+        body = [l for l in s[1:] if l.strip()]
+        if aab or bab or len(a) != len(body) or len(b) != len(body):
+            continue
+        elig = []
+        for i, (x, y) in enumerate(zip(a, b)):
+            if not (M.is_op(x) and M.is_op(y)) or ' @' in body[i] or ' !' in body[i]:
+                continue
+            ex, ey = M.spi_entries(M.fields(x).get('spi')), M.spi_entries(M.fields(y).get('spi'))
+            wx = [k for k, e in enumerate(ex) if e['kind'] in ('W', 'WB')]
+            wy = [k for k, e in enumerate(ey) if e['kind'] in ('W', 'WB')]
+            if wx and len(wx) == len(wy):
+                elig.append((i, wx, wy))
+        if not elig:
+            continue
+        i, wx, wy = rnd.choice(elig)
+        j = rnd.randrange(len(wx))
+        code = rnd.choice([1, 0x101, 0x107])
+        hdr = s[0] + ' wf%d' % len(sc)
+        mk = lambda k: [hdr] + [l + (' !%d=%d' % (k, code) if n == i else '') for n, l in enumerate(body)] + ['dump']
+        sc.append(mk(wx[j])); su.append(mk(wy[j]))
+        origin[hdr] = (body[i], j)
+    if not sc:
+        return
+    rc_ = C.run_impl(bin_c, sc)
+    ru_ = C.run_impl(bin_u, su)
+    run.cov['write_fault_scripts'] = len(sc)
+    run.cov['programs'] += len(sc)
+    hit = 0
+    for x, y in zip(sc, su):
+        a, aab = rc_.get(x[0], ([], None))
+        b, bab = ru_.get(y[0], ([], None))
+        if any('!' in e for l in a if M.is_op(l) for e in [M.fields(l).get('spi', '')]):
+            hit += 1
+        before = len(run.violations)
+        lockstep(run, x, a, aab, b, bab)
+        if len(run.violations) > before:
+            t, scr, det = run.violations[-1]
+            op, j = origin[x[0]]
+            run.violations[-1] = ('with write #%d of `%s` failing: %s' % (j, op[:60], t), scr, dict(det, uncached_script=y))
+    run.cov['write_faults_fired'] = hit
 
 def lockstep(run, script, a, aab, b, bab):
     a = [l for l in a if not l.startswith('!')]
@@ -146,6 +209,8 @@ def c08(run):
 def c09(run):
     def gen(g):
         g.exh_setters(q(run, PRIORS_Q, PRIORS_T))
+        g.setter_seqs(q(run, 300, 4000))
+        g.setter_pairs()
     divs = C.execute(run, gen, monitor=mon_c09)
     return divs
 
@@ -187,7 +252,23 @@ def c11(run):
         g.fsk_fault(q(run, 150, 2000))
         g.exh_setters(q(run, [0x00, 0xff], PRIORS_Q), fault=True)
         g.hist(q(run, 150, 2000))
-    return C.execute(run, gen, monitor=chain(M.mon_faults, M.mon_expect))
+        g.modem_switch_fault(q(run, 150, 2000))
+    return C.execute(run, gen, monitor=chain(M.mon_faults, M.mon_expect, mon_stale_cache))
+
+def mon_stale_cache(run, script, il, iab, ml):
+    """C11, 'no stale cache content left by the failed attempt': in a script in which a transfer was made to fail, the
+    harness' comparison of the register cache with the chip (the '!C01' lines) must stay silent afterwards"""
+    faulted = False
+    for l in il:
+        if M.is_op(l):
+            if not faulted and any(e['fault'] is not None for e in M.spi_entries(M.fields(l).get('spi'))):
+                faulted = True
+        elif faulted and l.startswith('!C01') and ' after env' not in l:   # scripts may rewrite the chip wholesale before a re-creation
+            run.cov['monitor_checks'] += 1
+            run.violation('after a failed transfer the register cache no longer matches the chip: ' + l[1:], script, {'monitor': l})
+            return
+    if faulted:
+        run.cov['monitor_checks'] += 1
 
 def c12(run):
     def gen(g):
@@ -211,6 +292,7 @@ def c14(run):
         else:
             iv = sorted(set(list(range(1, 1100)) + [r.randint(1, 133620) for _ in range(3000)] + list(range(2085, 2100)) + list(range(66820, 67900, 7)) + list(range(67845, 67870)) + list(range(66800, 66830)) + [133619, 133620]))
         g.beacon(iv)
+        g.beacon_stale(q(run, 60, 600))
     return C.execute(run, gen, monitor=chain(M.mon_expect, mon_abort_generic), cone={'fsk_ook_tx_start_beacon', 'fsk_ook_tx_stop_beacon'})
 
 def mon_abort_generic(run, script, il, iab, ml):
@@ -250,7 +332,7 @@ def mon_c15(run, script, il, iab, ml):
 def c16(run):
     def gen(g):
         g.hop(q(run, 300, 4000))
-    return C.execute(run, gen, monitor=M.mon_expect, cone={'irq', 'lora_set_frequency_hopping'})
+    return C.execute(run, gen, monitor=chain(M.mon_expect, mon_abort_generic), cone={'irq', 'lora_set_frequency_hopping'})
 
 def c17(run):
     def gen(g):
